@@ -414,8 +414,9 @@ func (c *ctx) rewriteStmt(pk *packages.Package, f *ast.File, fname string, calle
 		name   string
 		typ    string
 		arg    string
-		obj    types.Object
-		simple bool
+		obj     types.Object
+		simple  bool
+		argExpr ast.Expr
 	}
 	var binds []bind
 	if h.fd.Recv != nil {
@@ -435,7 +436,7 @@ func (c *ctx) rewriteStmt(pk *packages.Package, f *ast.File, fname string, calle
 		case !wantPtr && havePtr:
 			recvText = "*" + recvText
 		}
-		binds = append(binds, bind{rf.Names[0].Name, rt, recvText, h.pkg.TypesInfo.Defs[rf.Names[0]], simple(se.X) && recvText == c.text(fname, se.X.Pos(), se.X.End())})
+		binds = append(binds, bind{rf.Names[0].Name, rt, recvText, h.pkg.TypesInfo.Defs[rf.Names[0]], simple(se.X) && recvText == c.text(fname, se.X.Pos(), se.X.End()), se.X})
 	}
 	ai := 0
 	for _, p := range h.fd.Type.Params.List {
@@ -444,7 +445,7 @@ func (c *ctx) rewriteStmt(pk *packages.Package, f *ast.File, fname string, calle
 				return edit{}, false
 			}
 			a := call.Args[ai]
-			binds = append(binds, bind{n.Name, c.text(hfile, p.Type.Pos(), p.Type.End()), c.text(fname, a.Pos(), a.End()), h.pkg.TypesInfo.Defs[n], simple(a) && sameType(info.TypeOf(a), h.pkg.TypesInfo.Defs[n].Type())})
+			binds = append(binds, bind{n.Name, c.text(hfile, p.Type.Pos(), p.Type.End()), c.text(fname, a.Pos(), a.End()), h.pkg.TypesInfo.Defs[n], simple(a) && sameType(info.TypeOf(a), h.pkg.TypesInfo.Defs[n].Type()), a})
 			ai++
 		}
 	}
@@ -462,7 +463,7 @@ func (c *ctx) rewriteStmt(pk *packages.Package, f *ast.File, fname string, calle
 		}
 	}
 	for _, bd := range binds {
-		if bd.simple && !assignedIn(h.pkg.TypesInfo, h.fd.Body, bd.obj) {
+		if bd.simple && !assignedIn(h.pkg.TypesInfo, h.fd.Body, bd.obj) && c.stableArg(info, caller, h, bd.obj, bd.argExpr) {
 			subst[bd.obj] = bd.arg
 			continue
 		}
@@ -474,6 +475,11 @@ func (c *ctx) rewriteStmt(pk *packages.Package, f *ast.File, fname string, calle
 	// helper locals leak into the enclosing block in direct mode: any name the caller also uses is renamed
 	for n := range callerLocals {
 		argIdents[n] = true
+	}
+	if as, isAs := s.(*ast.AssignStmt); isAs && as.Tok == token.DEFINE {
+		// not wrapped in a block (the defined variables must stay visible): every helper local gets
+		// a name of its own, two inlinings in one scope must not redeclare each other's locals
+		argIdents["*"] = true
 	}
 	body, ok := c.bodyText(h, suffix, resNames, subst, argIdents, &directTexts)
 	if !ok {
@@ -508,7 +514,12 @@ func (c *ctx) rewriteStmt(pk *packages.Package, f *ast.File, fname string, calle
 	switch x := s.(type) {
 	case *ast.ExprStmt:
 		out.Write(b.Bytes())
-		if len(resNames) > 0 {
+		if len(directTexts) == len(resNames) && len(resNames) > 0 {
+			// the value is discarded, the returned expressions are still evaluated
+			for _, t := range directTexts {
+				fmt.Fprintf(&out, "_ = %s\n", t)
+			}
+		} else {
 			for _, r := range resNames {
 				fmt.Fprintf(&out, "_ = %s\n", r)
 			}
@@ -633,7 +644,7 @@ func (c *ctx) bodyText(h *helper, suffix string, res []string, subst map[types.O
 	if h.fd.Type.Results != nil {
 		for _, r := range h.fd.Type.Results.List {
 			for _, n := range r.Names {
-				if argIdents[n.Name] {
+				if argIdents[n.Name] || argIdents["*"] {
 					named = append(named, n.Name+suffix)
 				} else {
 					named = append(named, n.Name)
@@ -652,6 +663,20 @@ func (c *ctx) bodyText(h *helper, suffix string, res []string, subst map[types.O
 		}
 	}
 	lo, hi := h.fd.Pos(), h.fd.End()
+	// the symbolic variable of a type switch has no object of its own (one implicit object per
+	// clause, positioned at the identifier): rename the identifier whenever its uses are renamed
+	ast.Inspect(h.fd.Body, func(x ast.Node) bool {
+		ts, ok := x.(*ast.TypeSwitchStmt)
+		if !ok {
+			return true
+		}
+		if as, ok := ts.Assign.(*ast.AssignStmt); ok && len(as.Lhs) == 1 {
+			if id, ok := as.Lhs[0].(*ast.Ident); ok && id.Name != "_" && (argIdents[id.Name] || argIdents["*"]) {
+				edits = append(edits, edit{c.off(id.Pos()), c.off(id.End()), id.Name + suffix})
+			}
+		}
+		return true
+	})
 	ast.Inspect(h.fd.Body, func(x ast.Node) bool {
 		id, ok := x.(*ast.Ident)
 		if !ok || id.Name == "_" {
@@ -674,7 +699,7 @@ func (c *ctx) bodyText(h *helper, suffix string, res []string, subst map[types.O
 			edits = append(edits, edit{c.off(id.Pos()), c.off(id.End()), txt})
 			return true
 		}
-		if _, isParam := paramObj[o]; !isParam && !argIdents[id.Name] {
+		if _, isParam := paramObj[o]; !isParam && !argIdents[id.Name] && !argIdents["*"] {
 			return true // a helper local whose name no argument uses keeps its name (own block scope)
 		}
 		edits = append(edits, edit{c.off(id.Pos()), c.off(id.End()), id.Name + suffix})
@@ -760,7 +785,7 @@ func (c *ctx) bodyText(h *helper, suffix string, res []string, subst map[types.O
 		for _, r := range h.fd.Type.Results.List {
 			for _, n := range r.Names {
 				name := n.Name
-				if argIdents[name] {
+				if argIdents[name] || argIdents["*"] {
 					name += suffix
 				}
 				decl += "var " + name + " " + string(src[c.off(r.Type.Pos()):c.off(r.Type.End())]) + "\n_ = " + name + "\n"
@@ -769,8 +794,35 @@ func (c *ctx) bodyText(h *helper, suffix string, res []string, subst map[types.O
 		body = decl + body
 	}
 	if useDirect {
-		for _, e := range rets[0].Results {
-			*direct = append(*direct, renamed(c.off(e.Pos()), c.off(e.End())))
+		var rtypes []string
+		if h.fd.Type.Results != nil {
+			for _, r := range h.fd.Type.Results.List {
+				n := len(r.Names)
+				if n == 0 {
+					n = 1
+				}
+				for k := 0; k < n; k++ {
+					rtypes = append(rtypes, string(src[c.off(r.Type.Pos()):c.off(r.Type.End())]))
+				}
+			}
+		}
+		for i, e := range rets[0].Results {
+			txt := renamed(c.off(e.Pos()), c.off(e.End()))
+			untyped := false
+			if tv, ok := info.Types[e]; ok && tv.Type != nil {
+				if b, isB := tv.Type.(*types.Basic); isB && b.Info()&types.IsUntyped != 0 {
+					untyped = true
+				}
+			}
+			switch {
+			case untyped && i < len(rtypes):
+				txt = "(" + rtypes[i] + ")(" + txt + ")" // nil or a constant takes the declared result type
+			case !simple(e):
+				if _, isCall := ast.Unparen(e).(*ast.CallExpr); !isCall {
+					txt = "(" + txt + ")"
+				}
+			}
+			*direct = append(*direct, txt)
 		}
 	}
 	if flat {
@@ -823,6 +875,121 @@ func assignedIn(info *types.Info, body ast.Node, obj types.Object) bool {
 			}
 		case *ast.RangeStmt:
 			if (x.Key != nil && isObj(x.Key)) || (x.Value != nil && isObj(x.Value)) {
+				found = true
+			}
+		}
+		return !found
+	})
+	return found
+}
+
+// stableArg: may the parameter be replaced by the argument expression itself? Only when the
+// expression denotes the same value throughout the helper's execution and afterwards:
+//   - a literal or constant;
+//   - a local variable of the caller whose address is never taken, provided the parameter is not
+//     captured by a function literal of the helper (a closure would see later assignments);
+//   - a field path rooted at such a variable, provided the helper itself does not assign, increment
+//     or take the address of a field of one of those names (that calls made by the helper leave the
+//     fields of the path alone is the assumption the intra-procedural rules make anyway).
+func (c *ctx) stableArg(info *types.Info, caller *ast.FuncDecl, h *helper, param types.Object, arg ast.Expr) bool {
+	hinfo := h.pkg.TypesInfo
+	captured := false
+	ast.Inspect(h.fd.Body, func(n ast.Node) bool {
+		if fl, ok := n.(*ast.FuncLit); ok {
+			ast.Inspect(fl, func(m ast.Node) bool {
+				if id, ok := m.(*ast.Ident); ok && hinfo.Uses[id] == param {
+					captured = true
+				}
+				return !captured
+			})
+			return false
+		}
+		return !captured
+	})
+	if captured {
+		return false
+	}
+	var fields []string
+	e := ast.Unparen(arg)
+	for {
+		switch x := e.(type) {
+		case *ast.BasicLit:
+			return true
+		case *ast.UnaryExpr:
+			e = ast.Unparen(x.X)
+			continue
+		case *ast.SelectorExpr:
+			if _, isPkg := info.Uses[identOf(x.X)].(*types.PkgName); isPkg {
+				_, isConst := info.Uses[x.Sel].(*types.Const)
+				return isConst
+			}
+			fields = append(fields, x.Sel.Name)
+			e = ast.Unparen(x.X)
+			continue
+		case *ast.Ident:
+			o := info.Uses[x]
+			switch v := o.(type) {
+			case *types.Const, *types.Nil:
+				return true
+			case *types.Var:
+				if v.Pkg() != nil && v.Parent() == v.Pkg().Scope() {
+					return false // package-level variable
+				}
+				if addressTaken(info, caller.Body, v) {
+					return false
+				}
+			default:
+				return false
+			}
+		default:
+			return false
+		}
+		break
+	}
+	if len(fields) == 0 {
+		return true
+	}
+	name := map[string]bool{}
+	for _, f := range fields {
+		name[f] = true
+	}
+	ok := true
+	touches := func(e ast.Expr) bool {
+		se, isSel := ast.Unparen(e).(*ast.SelectorExpr)
+		return isSel && name[se.Sel.Name]
+	}
+	ast.Inspect(h.fd.Body, func(n ast.Node) bool {
+		switch x := n.(type) {
+		case *ast.AssignStmt:
+			for _, l := range x.Lhs {
+				if touches(l) {
+					ok = false
+				}
+			}
+		case *ast.IncDecStmt:
+			if touches(x.X) {
+				ok = false
+			}
+		case *ast.UnaryExpr:
+			if x.Op == token.AND && touches(x.X) {
+				ok = false
+			}
+		}
+		return ok
+	})
+	return ok
+}
+
+func identOf(e ast.Expr) *ast.Ident {
+	id, _ := ast.Unparen(e).(*ast.Ident)
+	return id
+}
+
+func addressTaken(info *types.Info, body ast.Node, v types.Object) bool {
+	found := false
+	ast.Inspect(body, func(n ast.Node) bool {
+		if u, ok := n.(*ast.UnaryExpr); ok && u.Op == token.AND {
+			if id, ok := ast.Unparen(u.X).(*ast.Ident); ok && info.Uses[id] == v {
 				found = true
 			}
 		}
